@@ -16,7 +16,7 @@ PROPERTY = "C19"
 RULE = ("[selected_fields has its own direct oracle: listed path set = reference path set for maxdepth None/0/1/2/3 and fnmatch patterns; "
         "the rule is also driven through graphql_blocking(validators=[rule]) with request variables; HISTORIES: one parsed Document and one "
         "rule instance per (limit, filter) reused over 8-14 calls with varying variables / filters / limits, each result = fresh instance on a "
-        "freshly parsed document = specification] ""documents = a base selection tree over `type Query {a: Query b: Query c: Int d: Int}` (aliases x->a, y->b, z->c so "
+        "freshly parsed document = specification] ""documents = a base selection tree over `type Query {a: Query b: Query c: Int d(i: Int): Int}` (aliases x->a, y->b, z->c so "
         "equal response keys are always mergeable), distributed over inline fragments (typed/untyped) and named fragments: "
         "EXHAUSTIVE for two small base operations (every partition of every selection list into contiguous blocks, each "
         "block plain / inline / spread), SAMPLED for larger ones (1-3 operations, shared fragments, @skip/@include with "
@@ -27,6 +27,9 @@ RULE = ("[selected_fields has its own direct oracle: listed path set = reference
 ASSUMPTIONS = [
     "variables: the request supplies a bool for every REQUIRED directive variable; variables declared with a default may be omitted "
     "(the specification is evaluated with what coerce_variable_values gives the operation: C19-Q1vars.patch makes the rule do the same)",
+    "request variables that do not coerce: JSON kinds bool / null / int / non-float strings / arrays / objects against Boolean and Int "
+    "variables (float forms and other scalar types are not generated; the model's `coerceScalar` does not cover them); when a directive "
+    "variable is unavailable in the mapping the rule falls back to, the rule raises CoercionError: known finding Q1-vars2",
     "documents are valid (parsed by py_gql.lang.parse and accepted by the default validation rules; NoUnusedVariables is left out "
     "because defect V4 of the unchanged tree reports variables used through nested fragments as unused): fragments acyclic and defined, "
     "unique fragment names, @skip/@include conditions are Boolean literals or variables",
@@ -48,7 +51,7 @@ EXPLANATION = ("Theorems are proved for the code AFTER proposed_fixes/C19-Q1.pat
 
 LIMITS = list(range(0, 9))
 MAXDEPTHS = [0, 1, 2, 3]
-SDL = "type Query { a: Query  b: Query  c: Int  d: Int }"
+SDL = "type Query { a: Query  b: Query  c: Int  d(i: Int): Int }"
 OBJ = [("a", None), ("b", None), ("a", "x"), ("b", "y")]
 LEAF = [("c", None), ("d", None), ("c", "z")]
 VARS = ["v0", "v1", "v2"]
@@ -77,7 +80,7 @@ def strip(x):
     if isinstance(x, list):
         return [strip(y) for y in x]
     if isinstance(x, dict):
-        return {k: strip(v) for k, v in x.items() if k != "t"}
+        return {k: strip(v) for k, v in x.items() if k not in ("t", "arg", "xv")}
     return x
 
 
@@ -100,7 +103,8 @@ def p_sels(sels):
 
 def p_sel(s):
     if s["k"] == "f":
-        return ("%s: " % s["a"] if s["a"] else "") + s["n"] + p_dirs(s["d"]) + (" " + p_sels(s["s"]) if s["s"] else "")
+        return (("%s: " % s["a"] if s["a"] else "") + s["n"] + ("(i: $%s)" % s["arg"] if s.get("arg") else "") + p_dirs(s["d"])
+                + (" " + p_sels(s["s"]) if s["s"] else ""))
     if s["k"] == "i":
         return "..." + (" on Query" if s.get("t") else "") + p_dirs(s["d"]) + " " + p_sels(s["s"])
     return "..." + s["n"] + p_dirs(s["d"])
@@ -139,8 +143,10 @@ def wire_doc(doc, defaults=False):
     """the document as sent to the Lean driver: + variable definitions per operation"""
     out = strip(doc)
     for o in out["ops"]:
-        o["vd"] = [{"n": v, "nn": decl_of(defaults, v) is None, "d": decl_of(defaults, v)}
+        o["vd"] = [{"n": v, "ty": "b", "nn": decl_of(defaults, v) is None, "d": decl_of(defaults, v)}
                    for v in sorted(vars_in(o["sels"], doc["frags"]))]
+    for o, src in zip(out["ops"], doc["ops"]):
+        o["vd"] = sorted(o["vd"] + [dict(x) for x in src.get("xv", [])], key=lambda x: x["n"])
     return out
 
 
@@ -148,7 +154,9 @@ def p_doc(doc, defaults=False):
     parts = []
     for op in doc["ops"]:
         vs = sorted(vars_in(op["sels"], doc["frags"]))
-        decl = "(" + ", ".join("$%s: Boolean%s" % (v, decl_suffix(defaults, v)) for v in vs) + ")" if vs else ""
+        decls = ["$%s: Boolean%s" % (v, decl_suffix(defaults, v)) for v in vs]
+        decls += ["$%s: Int%s%s" % (x["n"], "!" if x["nn"] else "", "" if x["d"] is None else " = %d" % x["d"]) for x in op.get("xv", [])]
+        decl = "(" + ", ".join(decls) + ")" if decls else ""
         head = "query %s%s " % (op["name"], decl) if op["name"] else ("query %s " % decl if decl else "")
         parts.append(head + p_sels(op["sels"]))
     for f in doc["frags"]:
@@ -193,8 +201,10 @@ def conv_doc(document):
             vd = []
             for v in d.variable_definitions:
                 dv = v.default_value
-                vd.append({"n": v.variable.name.value, "nn": isinstance(v.type, A.NonNullType),
-                           "d": bool(dv.value) if isinstance(dv, A.BooleanValue) else None})
+                ty = v.type.type if isinstance(v.type, A.NonNullType) else v.type
+                vd.append({"n": v.variable.name.value, "ty": "i" if getattr(getattr(ty, "name", None), "value", "") == "Int" else "b",
+                           "nn": isinstance(v.type, A.NonNullType),
+                           "d": bool(dv.value) if isinstance(dv, A.BooleanValue) else (int(dv.value) if isinstance(dv, A.IntValue) else None)})
             ops.append({"name": d.name.value if d.name else None, "sels": sels(d.selection_set),
                         "vd": sorted(vd, key=lambda x: x["n"])})
         elif isinstance(d, A.FragmentDefinition):
@@ -226,8 +236,78 @@ def ref_levels(sels, frags, vs):
     return best
 
 
+class PerOp(list):
+    """per-operation variable views (each operation is evaluated with ITS coerced variables, or with the raw ones)"""
+
+
+def vs_of(vs, i):
+    return vs[i] if isinstance(vs, PerOp) else vs
+
+
 def ref_depth(doc, i, vs):
-    return max(0, ref_levels(doc["ops"][i]["sels"], doc["frags"], vs) - 1)
+    return max(0, ref_levels(doc["ops"][i]["sels"], doc["frags"], vs_of(vs, i)) - 1)
+
+
+MAX_INT, MIN_INT = 2147483647, -2147483648
+
+
+def py_coerce(vd, raw):
+    """reference for coerce_variable_values on Boolean / Int variables (GraphQL input coercion as py-gql implements it for
+       the JSON kinds the generator uses); None = the variables do not coerce"""
+    out = {}
+    for d in vd:
+        n = d["n"]
+        if n not in raw:
+            if d["d"] is not None:
+                out[n] = d["d"]
+            elif d["nn"]:
+                return None
+            continue
+        v = raw[n]
+        if v is None:
+            if d["nn"]:
+                return None
+            out[n] = None
+        elif d["ty"] == "b":
+            if isinstance(v, (list, dict)):
+                return None
+            out[n] = bool(v)
+        else:
+            if isinstance(v, bool):
+                out[n] = int(v)
+            elif isinstance(v, int):
+                if not (MIN_INT <= v <= MAX_INT):
+                    return None
+                out[n] = v
+            elif isinstance(v, str):
+                try:
+                    k = int(v, 10)
+                except ValueError:
+                    return None
+                if not (MIN_INT <= k <= MAX_INT):
+                    return None
+                out[n] = k
+            else:
+                return None
+    return out
+
+
+def py_view(mapping):
+    """what _skip_selection sees: available (non-null) values by truthiness"""
+    return {k: bool(v) for k, v in mapping.items() if v is not None}
+
+
+def effective_views(doc, defaults, raw):
+    """PerOp views + per operation: did the variables coerce? is a directive variable it needs unavailable?"""
+    w = wire_doc(doc, defaults)
+    views, coerced_ok, unavailable = PerOp(), [], []
+    for o, src in zip(w["ops"], doc["ops"]):
+        c = py_coerce(o["vd"], raw)
+        coerced_ok.append(c is not None)
+        view = py_view(c if c is not None else raw)
+        views.append(view)
+        unavailable.append(sorted(v for v in vars_in(src["sels"], doc["frags"]) if v not in view))
+    return views, coerced_ok, unavailable
 
 
 def ref_paths(sels, frags, vs, maxdepth, prefix=()):
@@ -264,6 +344,8 @@ def paths_failure(real, case, document):
     for i, (op, rop) in enumerate(zip(doc["ops"], ops)):
         fields = [s for s in op["sels"] if s["k"] == "f"]
         rfields = [s for s in rop.selection_set.selections if isinstance(s, real.A.Field)]
+        if isinstance(case.vs, PerOp):
+            vs = rvs = case.vs[i]
         for fj, (f, rf) in enumerate(zip(fields, rfields)):
             for md in (None, 0, 1, 2, 3):
                 ref = ref_paths(f["s"], doc["frags"], vs, md)
@@ -286,6 +368,7 @@ def features(doc, i, vs):
     """structural features naming a failure class (computed on the shrunk case)"""
     op = doc["ops"][i]
     fs = set()
+    vs = vs_of(vs, i)
     lv = ref_levels(op["sels"], doc["frags"], vs)
     if lv <= 1:
         fs.add("flat")
@@ -616,6 +699,8 @@ class Case:
         self.doc, self.vs, self.base, self.defaults = doc, vs, base, defaults
         self.real_vs = vs if real_vs is None else real_vs
         self.validate = True
+        self.raw = False           # real_vs are arbitrary JSON values (Lean: "raw" / ruleR)
+        self.unavailable = None
 
     def detail(self, **kw):
         d = {"text": p_doc(self.doc, self.defaults), "variables": self.real_vs, "spec_variables": self.vs}
@@ -752,6 +837,35 @@ def shrink(real, case, kind):
     return cur
 
 
+def shrink_raw(real, case, kind, i):
+    """raw-variable cases: keep only the blamed operation (plus one flat witness operation) if the failure persists,
+       then drop request variables one by one"""
+    def build(doc, raw):
+        views, ok, unavailable = effective_views(doc, False, raw)
+        c = Case(doc, views, real_vs=raw)
+        c.raw, c.unavailable, c.validate = True, unavailable, False
+        return c
+
+    def fails_same(c):
+        try:
+            f = oracle_failures(real, c)
+        except Exception:  # noqa
+            return False
+        return bool(f) and f[0][0] == kind
+
+    cur = case
+    if len(case.doc["ops"]) > 1 and 0 <= i < len(case.doc["ops"]):
+        cand = build(prune_frags({"ops": [case.doc["ops"][i]], "frags": case.doc["frags"]}), case.real_vs)
+        if fails_same(cand):
+            cur = cand
+    for k in sorted(cur.real_vs):
+        raw = {a: b for a, b in cur.real_vs.items() if a != k}
+        cand = build(cur.doc, raw)
+        if fails_same(cand):
+            cur = cand
+    return cur
+
+
 def report(ctx, real, case, fails):
     kind, i, info = fails[0]
     if kind == "generator-invalid":
@@ -759,13 +873,18 @@ def report(ctx, real, case, fails):
         if ctx.stats["generated-invalid"] <= 2:
             ctx.notes.append("generator produced an invalid document: " + p_doc(case.doc)[:300])
         return
-    small = shrink(real, case, kind)
+    small = shrink_raw(real, case, kind, i) if case.raw else shrink(real, case, kind)
     f2 = oracle_failures(real, small) or fails
+    case = small if small.raw else case
     kind2, i2, info2 = f2[0]
     i2 = min(i2, len(small.doc["ops"]) - 1)
     feat = features(small.doc, i2, small.vs)
     if kind2.startswith("raises:CoercionError") and small.defaults:
         feat = "directive-variable-omitted"
+    if case.raw:
+        feat = "uncoercible-variables"
+        if kind2.startswith("raises:CoercionError") and case.unavailable and any(case.unavailable):
+            feat = "directive-variable-unavailable"
     sig = "%s:%s" % (kind2, feat)
     what = {
         "raises": "the depth rule raises on a valid document",
@@ -787,7 +906,8 @@ def correspond(ctx, real, cases, fixed, sf_fixed=True, vars_fixed=True):
         return
     reqs = []
     for c in cases:
-        reqs.append({"op": "check", "doc": wire_doc(c.doc, c.defaults), "vars": c.real_vs,
+        reqs.append({"op": "check", "doc": wire_doc(c.doc, c.defaults), "raw": c.real_vs if c.raw else {},
+                     "vars": {k: v for k, v in c.real_vs.items() if isinstance(v, bool)},
                      "grid": [[f, l] for f, l in grid_of(c.doc)], "maxdepths": MAXDEPTHS})
     answers = ctx.driver.ask(reqs)
     for c, a in zip(cases, answers):
@@ -799,10 +919,14 @@ def correspond(ctx, real, cases, fixed, sf_fixed=True, vars_fixed=True):
         if a.get("acyclic") is not True:
             ctx.fail("corr:acyclic", "Lean `acyclic` rejects a document the validator accepts", c.detail(), kind="correspondence")
         spec = [ref_depth(c.doc, i, c.vs) for i in range(len(c.doc["ops"]))]
-        if a.get("spec") != spec and c.real_vs == c.vs:
+        if a.get("spec") != spec and c.real_vs == c.vs and not c.raw:
             ctx.fail("corr:spec-depth", "Lean spec depth differs from the Python reference depth",
                      c.detail(lean=a.get("spec"), reference=spec), kind="correspondence")
         key = ("rulev" if vars_fixed else "rule") if fixed else "orig"
+        if c.raw:
+            if not (fixed and vars_fixed):
+                continue
+            key = "ruler"
         have = getattr(c, "grid", {})
         for (f, l), m in zip(grid_of(c.doc), a[key]):
             got = have[(f, l)] if (f, l) in have else real.flags(document, c.real_vs, l, f)
@@ -813,14 +937,14 @@ def correspond(ctx, real, cases, fixed, sf_fixed=True, vars_fixed=True):
                          "model of the %s rule and the implementation differ" % ("fixed" if fixed else "unchanged"),
                          c.detail(limit=l, filter=f, impl=got, model=m), kind="correspondence")
                 break
-        for md_i, md in enumerate(MAXDEPTHS):
+        for md_i, md in enumerate(MAXDEPTHS if not c.raw else []):
             impl = real.paths(document, c.real_vs, md if md else None)
             model = [[(ERRMAP.get(cell[md_i], cell[md_i]) if isinstance(cell[md_i], str) else cell[md_i]) for cell in row] for row in a["paths" if sf_fixed else "pathsOrig"]]
             ctx.count()
             if impl != model:
                 ctx.fail("corr:selected_fields", "model and selected_fields differ", c.detail(maxdepth=md, impl=impl, model=model), kind="correspondence")
                 break
-        if md == MAXDEPTHS[-1]:
+        if not c.raw and md == MAXDEPTHS[-1]:
             impl0 = real.paths(document, c.real_vs, 0)
             if impl0 != real.paths(document, c.real_vs, None):
                 ctx.fail("corr:selected_fields:maxdepth0", "maxdepth=0 and None differ", c.detail(), kind="correspondence")
@@ -947,6 +1071,25 @@ def run(ctx):
                          {"text": text, "history": steps[:k + 1], "got_last": g, "expected_last": want})
                 break
 
+    # --- requests whose variables do not coerce: hand-made ----------------------------------------
+    deep = [F("a", [F("a", [F("a", [F("c")])])])]
+    fixed_doc = {"ops": [{"name": "A", "sels": deep + [dict(F("d", alias="w0"), arg="n0")],
+                          "xv": [{"n": "n0", "ty": "i", "nn": True, "d": None}]},
+                         {"name": "B", "sels": [F("c")]}], "frags": []}
+    guarded = {"ops": [{"name": "A", "sels": [F("a", [F("a", [F("c")])], d={"skip": {"var": "v0"}, "incl": None}),
+                                              dict(F("d", alias="w0"), arg="n0")],
+                        "xv": [{"n": "n0", "ty": "i", "nn": True, "d": None}]},
+                       {"name": "B", "sels": [F("c")]}], "frags": []}
+    for fdoc, raws in ((fixed_doc, [{}, {"n0": None}, {"n0": "x"}, {"n0": [1]}, {"n0": 2 ** 31}, {"n0": 3}]),
+                       (guarded, [{"v0": False}, {"v0": True}, {"v0": [], "n0": 1}, {"v0": [1], "n0": 1}, {"v0": "yes", "n0": "x"}])):
+        for raw in raws:
+            views, ok, unavailable = effective_views(fdoc, False, raw)
+            case = Case(fdoc, views, real_vs=raw)
+            case.raw, case.unavailable = True, unavailable
+            ctx.stat("uncoercible-hand-made")
+            check(case, ("unco-fixed", p_doc(fdoc), json.dumps(raw, sort_keys=True)))
+    flush()
+
     # --- sampled larger documents ---------------------------------------------------------
     n = ctx.n(300, 2400)
     for j in range(n):
@@ -980,6 +1123,7 @@ def run(ctx):
             else:
                 check(Case(doc, vs, base=base))
         ctx.stat("sampled")
+        uncoercible_stream(ctx, real, check, doc, assigns[0], j)
         if j < 40 and used:
             entry_point_probe(ctx, real, doc, assigns[0])
         if used:
@@ -1000,6 +1144,60 @@ def run(ctx):
             report(ctx, real, case, fails)
         if ctx.model_ok:
             correspond(ctx, real, [case], fixed, sf_fixed, vars_fixed)
+
+
+INT_OK = [7, "7", True, 0, -3]
+INT_BAD = ["missing", None, "x", "", [1], {"k": 1}, 2 ** 31]
+
+
+def uncoercible_stream(ctx, real, check, doc, vs0, j):
+    """request variables that do NOT coerce for some operations and do for others: every operation gets (mostly) an extra `Int`
+       variable (used as an argument of a root leaf `w<k>: d(i: $n<k>)`), and the request misses it / sends null / the wrong JSON
+       kind; Boolean directive variables are sent as arrays (uncoercible: raw truthiness), strings, numbers (coercible: bool(v)).
+       The rule must measure EVERY selected operation — with its coerced variables, or with the raw ones."""
+    rng = ctx.rng
+    doc2 = {"ops": [], "frags": doc["frags"]}
+    for k, o in enumerate(doc["ops"]):
+        o2 = dict(o)
+        if rng.random() < 0.75:
+            nn = rng.random() < 0.7
+            dflt = None if nn or rng.random() < 0.5 else 5
+            o2["xv"] = [{"n": "n%d" % k, "ty": "i", "nn": nn, "d": dflt}]
+            o2["sels"] = o["sels"] + [dict(F("d", alias="w%d" % k), arg="n%d" % k)]
+        doc2["ops"].append(o2)
+    for variant in range(3):
+        raw = dict(vs0)
+        for o in doc2["ops"]:
+            for x in o.get("xv", []):
+                bad = rng.random() < (0.0 if variant == 0 else 0.6)
+                v = rng.choice(INT_BAD) if bad else rng.choice(INT_OK)
+                if isinstance(v, str) and v == "missing":
+                    raw.pop(x["n"], None)
+                else:
+                    raw[x["n"]] = v
+        if variant == 2 and vs0:
+            v = rng.choice(sorted(vs0))
+            raw[v] = rng.choice([[1], [], {"k": 1}, "yes", "", 1, 0])
+        want_unavailable = variant == 2 and vs0 and j % 10 == 0
+        if want_unavailable:
+            v = rng.choice(sorted(vs0))
+            if rng.random() < 0.5:
+                raw.pop(v, None)
+            else:
+                raw[v] = None
+        views, ok, unavailable = effective_views(doc2, False, raw)
+        case = Case(doc2, views, real_vs=raw)
+        case.raw = True
+        case.unavailable = unavailable
+        case.validate = (variant == 0 and j % 4 == 0)
+        ctx.stat("uncoercible-stream")
+        ctx.stat("operations-whose-variables-coerce", sum(ok))
+        ctx.stat("operations-whose-variables-do-NOT-coerce", len(ok) - sum(ok))
+        if any(ok) and not all(ok):
+            ctx.stat("documents-with-coercible-and-uncoercible-operations")
+        if any(unavailable):
+            ctx.stat("directive-variable-unavailable")
+        check(case, ("unco", p_doc(doc2), json.dumps(raw, sort_keys=True, default=str)))
 
 
 def pipeline_outcome(real, text, vs, name, limit, rule_filter):
@@ -1174,7 +1372,8 @@ def replay(ctx, data):
         return got == inp["expected"]
     document = real.parse(inp["text"])
     doc = conv_doc(document)
-    case = Case(doc, inp.get("spec_variables", inp.get("variables", {})), real_vs=inp.get("variables", {}))
+    sv = inp.get("spec_variables", inp.get("variables", {}))
+    case = Case(doc, PerOp(sv) if isinstance(sv, list) else sv, real_vs=inp.get("variables", {}))
     # the text is authoritative (it already carries the variable declarations): evaluate the oracle on it directly
     vs = case.vs
     ok = True
